@@ -63,11 +63,12 @@ func (ic *carInbound) Accept(req transport.HTTPRequest) (transport.InboundAccept
 	}
 
 	// TODO: select an encoder by desired preference (q=) - we only support 1 ATM
-	accept := req.Headers().Get("Accept")
+	// several Accept header lines are one comma separated list
+	accept := strings.Join(req.Headers().Values("Accept"), ",")
 	if accept == "" {
 		accept = "*/*"
 	}
-	if accept != "*/*" && !strings.Contains(accept, contentType) {
+	if !acceptable(accept, contentType) {
 		headers := http.Header{}
 		headers.Set("Accept", contentType)
 		return nil, thttp.NewHTTPError(
@@ -78,6 +79,20 @@ func (ic *carInbound) Accept(req transport.HTTPRequest) (transport.InboundAccept
 	}
 
 	return ic.codec, nil
+}
+
+// acceptable tells whether one of the comma separated media ranges of an Accept
+// header value is the given content type or "*/*". Parameters of a media range
+// (such as q=) are ignored.
+func acceptable(accept, contentType string) bool {
+	for _, part := range strings.Split(accept, ",") {
+		mediaRange, _, _ := strings.Cut(part, ";")
+		mediaRange = strings.Trim(mediaRange, " \t")
+		if mediaRange == "*/*" || mediaRange == contentType {
+			return true
+		}
+	}
+	return false
 }
 
 var _ transport.InboundCodec = (*carInbound)(nil)
